@@ -28,7 +28,7 @@ META = {
             "certificate-bearing RSA/ECDSA/Ed25519 keys. (1) public encoding -> 5 re-parse routes -> equal key, "
             "equal hash, both fingerprints, bytes; (2) every writable key x {write_private_key_file, "
             "write_private_key} x passphrase {None, 'pw', unicode, 100 chars, bytes, ''} x umask {0, 022, 077, "
-            "002} x target {absent, existing 0644 longer file, existing 0600 file} x loader "
+            "002; thorough: +007, 027, 133} x target {absent, existing 0644 longer file, existing 0600 file} x loader "
             "{from_private_key_file, from_private_key, class(filename=), from_path} x load passphrase {right, "
             "None, '', wrong, right+space, case-flipped}: right one gives an equal signing-capable key whose "
             "signatures cross-verify, every other one raises; new files have mode 0600 both when the key "
@@ -266,7 +266,7 @@ def write_scenarios(tier):
     """(api, passphrase label, umask, target) - the full product for the file API."""
     out = []
     for plab, _ in PASSPHRASES:
-        for um in UMASKS:
+        for um in (UMASKS if tier == "quick" else UMASKS + [0o007, 0o027, 0o133]):
             for tgt in TARGETS:
                 out.append(("write_private_key_file", plab, um, tgt))
         out.append(("write_private_key", plab, 0o022, "fileobj"))
